@@ -155,6 +155,19 @@ func (c04) Gen(r *rand.Rand, tier string, run int) *core.Case {
 			}
 		}
 	}
+	if c.Batch == "fault-free" && r.IntN(6) == 0 {
+		// the hosting process calls its own service through the server's
+		// session: every goroutine with a proxy of its own, asked from that
+		// session, the same methods of the same objects at the same time
+		c.Batch = "local-session"
+		c.Params["local"] = 1
+		lk := []string{"echo", "echo", "echo", "noarg", "slow", "fire"}
+		for k := 0; k < 2+r.IntN(3); k++ {
+			for i := 0; i < 2+r.IntN(4); i++ {
+				c.Ops = append(c.Ops, core.Op{Kind: lk[r.IntN(len(lk))], Actor: 80 + k, X: 0, Y: int64(r.IntN(nObj)), S: strconv.FormatUint(r.Uint64()>>20, 16)})
+			}
+		}
+	}
 	if r.IntN(3) == 0 {
 		// the generic object features are calls like any other: statistics
 		// and tracing change how an object answers
@@ -353,7 +366,28 @@ func (c04) Run(c *core.Case, env *core.Env) {
 		}
 		go func(a int) {
 			defer wg.Done()
+			var locals map[int]probe.ProbeProxy
 			for i, op := range ops {
+				if a >= 80 && a < 90 {
+					zzsim.SetNode("server")
+					o := int(op.Y) % len(w.ObjIDs)
+					if locals == nil {
+						locals = map[int]probe.ProbeProxy{}
+					}
+					if locals[o] == nil {
+						sess := w.Srv.Session()
+						px, err := sess.Proxy("Probe", w.ObjIDs[o])
+						if err != nil {
+							env.Violate("setup/local-proxy", "%v", err)
+							return
+						}
+						locals[o] = probe.MakeProbe(sess, px)
+					}
+					op.Y = int64(o)
+					c04op(env, a, i, op, locals[o])
+					env.Probe("operations-through-the-server's-own-session")
+					continue
+				}
 				if a >= 70 && a < 80 {
 					if direct != nil {
 						zzsim.SetNode("server")
